@@ -413,6 +413,14 @@ def run(ctx):
         moves = fn.blocks_calling(lambda n: re.search(mover, n) is not None)
         lp = _loop_with(fn, moves)
         if not moves or lp is None:
+            # the loop may live in a helper of the interface that this entry point wraps (write_outputs -> encode_outputs)
+            for b_, nm_, t_ in fn.calls(lambda n: n.startswith(IOI) and n in fx.fns and n != fid):
+                f2_ = F(fx.fns[nm_])
+                m2_ = f2_.blocks_calling(lambda n: re.search(mover, n) is not None)
+                if m2_ and _loop_with(f2_, m2_) is not None:
+                    fn, moves, lp = f2_, m2_, _loop_with(f2_, m2_)
+                    break
+        if not moves or lp is None:
             r8.bad('skip-on-area-only|%s' % short, 'IoInterface::%s has no loop over the bindings around the image access (shape not recognised)' % short, loc=fn.loc(0))
             continue
         nexts = {b for b in lp if (fn.call_name(b) or '').endswith('::next')}
@@ -442,6 +450,38 @@ def run(ctx):
             r8.bad('skip-on-area-only|%s' % short, 'IoInterface::%s decides to skip a binding on %s, which is not a property of the binding: in a cycle where that state says "skip", a bound variable is not %s although the image was latched / the variable was computed' % (short, offending[1][:3], what), loc=fn.loc(offending[0]))
         else:
             r8.ok('skip-on-area-only|%s' % short, loc=fn.loc(moves[0]))
+
+    # (c) publication is all or nothing: when encoding the outputs fails after the image was touched, the image is put
+    #     back before the error leaves write_outputs (the faulted cycle's partial outputs would otherwise be what the
+    #     safe-state delivery hands to the drivers)
+    rec = fx.fns.get(IOI + 'write_outputs')
+    r8.saw()
+    if rec is not None:
+        fn = F(rec)
+        cgx = ctx.cg
+        restores = [b for b in fn.g if fn.assigns_field(b, lambda f: f.endswith('IoInterface.outputs'))]
+        direct = fn.blocks_calling(lambda n: n == IOI + 'write')
+        encs = [b for b, nm, t in fn.calls(lambda n: n in fx.fns and n != IOI + 'write' and n.startswith(IOI) and (IOI + 'write') in cgx.reach([n]))]
+        okp = None
+        if encs and restores and not direct:
+            okp = True
+            for b in encs:
+                pos, neg, _ = call_result_edges(fn, b)
+                ok_, path = fn.must_pass_from([b], set(restores), removed_edges=pos)
+                if not pos or not ok_:
+                    okp = False
+        elif direct and restores:
+            # single function: every error exit after a write passes the restore
+            okp = True
+            for b in direct:
+                pos, neg, _ = call_result_edges(fn, b)
+                ok_, path = fn.must_pass_from([b], set(restores), removed_edges=pos)
+                if not ok_:
+                    okp = False
+        if okp:
+            r8.ok('publish-all-or-nothing', loc=fn.loc(restores[0]))
+        else:
+            r8.bad('publish-all-or-nothing', 'IoInterface::write_outputs can fail after some bindings were already encoded into the live image, and the image is not put back: the fault handling (safe state under SafeHalt) then delivers the partial outputs of the faulted cycle to the drivers', loc=fn.loc((direct or encs or [0])[0]))
 
 
 def _type_rows(fx, fid, inner_is_value=True):
